@@ -214,6 +214,12 @@ def write_evidence(module, tier: str, seed: int, merged: ShardResult, wall: floa
 def _worker(args):
     modname, ctx_dict = args
     setup_paths()
+    try:
+        import faulthandler
+        import signal
+        faulthandler.register(signal.SIGUSR1, all_threads=True)   # kill -USR1 <pid> dumps the stack (debug aid)
+    except Exception:
+        pass
     import importlib
     try:
         module = importlib.import_module(modname)
